@@ -12,3 +12,5 @@ import BobModel.Props.C20
 import BobModel.Props.C08
 import BobModel.Props.C16
 import BobModel.Props.C19
+import BobModel.Props.C06
+import BobModel.Props.C07
